@@ -27,6 +27,10 @@ func runC17(c *Ctx) {
 	c17Existence(c, "C17.3")
 	ruleNoGlobalState(c, "C17.4")
 	ruleCatalogNameMatch(c, "C17.5")
+	ruleFilledByIndex(c, "C17.6", "storage.ShowDB")
+	ruleSentinelWrapped(c, "C17.7", "storage", "engine")
+	ruleProbeReadOnly(c, "C17.8")
+	ruleListIterationStable(c, "C17.9")
 }
 
 func c17Paths(c *Ctx, rule string) {
